@@ -79,7 +79,9 @@ func c19Drivers() []*icCfg {
 		{Name: "R1-save-vs-writes", O: big, Pre: []icOp{S(1), S(2)}, Scripts: [][]icOp{{{Kind: "persist"}}, {S(1), D(2)}, {G(1), G(2)}}},
 		{Name: "R2-range-vs-expiry", O: big, Pre: []icOp{T(1, sec), S(2)}, Scripts: [][]icOp{{{Kind: "range"}}, {S(2), T(1, 5*sec)}, {tick}}},
 		{Name: "R3-views-vs-eviction", O: small, Pre: []icOp{S(1)}, Scripts: [][]icOp{{{Kind: "est"}, {Kind: "len"}, {Kind: "stats"}}, {S(2), S(4)}, {G(1), G(2)}}},
-		{Name: "R4-close-vs-all", O: big, Pre: []icOp{S(1)}, Scripts: [][]icOp{{{Kind: "close"}}, {S(2), G(1)}, {D(1), {Kind: "wait"}}}},
+		{Name: "R4-close-vs-all", O: big, Pre: []icOp{S(1)}, Scripts: [][]icOp{{{Kind: "close"}}, {S(2), G(1)}}},
+		{Name: "R4c-close-vs-delete", O: big, Pre: []icOp{S(1)}, Scripts: [][]icOp{{{Kind: "close"}}, {D(1), S(1)}}},
+		{Name: "R4b-close-vs-wait", O: big, Pre: []icOp{S(1)}, Scripts: [][]icOp{{{Kind: "close"}}, {S(2), G(1)}, {D(1), {Kind: "wait"}}}},
 		{Name: "R5-loading", O: big, Loading: true, LoadCost: 1, Scripts: [][]icOp{{L(1), G(1)}, {L(1)}, {S(1), D(1)}}},
 		{Name: "R6-update-vs-evict", O: small, Pre: []icOp{S(1)}, Scripts: [][]icOp{{S(1), S(1)}, {S(2)}, {G(1), {Kind: "range"}}}},
 		// read buffer with every atomic a scheduling point and capacity 2 (build schedTrackBuf): drains, Free and refills overlap
